@@ -672,6 +672,24 @@ def rule_A_CODEC(ctx, repo):
                      'next write makes the loss permanent' % (ci.label, ', '.join(sorted(rd)), ', '.join(sorted(wr))), wh(ci, src[1]))
     if n < 3:
         raise AnalysisError('instance count below confirmed minimum: %d archive classes with serializer calls on both sides (< 3)' % n)
+    # ... and values are pickled *by value*: byref=True (or a by-reference pickler) writes classes and functions of the writer's __main__ as names another
+    # program cannot resolve - the read fails there and the archive looks empty
+    for ci in archive_classes(repo):
+        for name, fi in ci.methods.items():
+            for x in ast.walk(fi.node):
+                hit = None
+                if isinstance(x, ast.keyword) and x.arg == 'byref' and isinstance(x.value, ast.Constant) and x.value.value is True:
+                    hit = x.value
+                elif isinstance(x, ast.Dict):
+                    for k, v in zip(x.keys, x.values):
+                        if isinstance(k, ast.Constant) and k.value == 'byref' and isinstance(v, ast.Constant) and v.value is True:
+                            hit = v
+                if hit is not None:
+                    ctx.ob('A-CODEC', None, False)
+                    ctx.fail('A-CODEC', mq(ci, name), 'values pickled with byref=True',
+                             '%s.%s hands byref=True to the serializer: dill then writes classes (and functions) defined in the writer\'s __main__ by reference, as a name '
+                             'only that program can resolve.  A fresh handle in another program cannot unpickle the entry; the archives turn the failure into a missing entry / '
+                             'an empty archive, and the next write makes the loss permanent' % (ci.label, name), wh(ci, hit.lineno))
 
 
 def rule_A_WRITEALL(ctx, repo, cache):
@@ -774,6 +792,223 @@ def rule_A_RED_MEM(ctx, repo):
                      'are not part of the pickle - the clone of a cached function starts with an empty archive and recomputes what the original loads'
                      % (lab, h, ' '.join(unparse(fn).split())[:90]), '%s:%d' % (ci.methods[h].module.rel if hasattr(ci.methods[h], 'module') else m.rel, fn.lineno))
     ctx.ob('A-RED', 'in-memory archive classes examined', True, n=max(1, n))
+
+
+SQL_AFFINITY = ('text', 'char', 'clob', 'int', 'integer', 'real', 'floa', 'doub', 'numeric', 'decimal', 'bool', 'blob', 'date', 'varchar')
+
+
+def rule_A_SCHEMA(ctx, repo):
+    """A-SCHEMA: the sqlite table that backs an archive declares its columns without a type.  A declared type gives the column an *affinity*: with TEXT
+    affinity sqlite converts an integer key to its decimal string when the row is written and when a parameter is compared with the column, so the keys
+    7 and '7' become one row - a cached call with one is answered with the result of the other; typeless columns store every value under its own type."""
+    import re
+    m = repo.mod('_archives')
+    n = 0
+    for node in ast.walk(m.tree):
+        if not (isinstance(node, ast.Constant) and isinstance(node.value, str)):
+            continue
+        txt = node.value
+        mt = re.search(r'create\s+table\b[^()]*\(([^()]*)\)', txt, re.I)
+        if not mt:
+            continue
+        n += 1
+        typed = []
+        for col in mt.group(1).split(','):
+            toks = col.strip().lower().split()
+            if any(any(tok.startswith(a) for a in SQL_AFFINITY) for tok in toks[1:]):
+                typed.append(col.strip())
+        ctx.ob('A-SCHEMA', '%s:%d %s' % (m.rel, node.lineno, ' '.join(txt.split())[:50]), not typed)
+        if typed:
+            ctx.fail('A-SCHEMA', '%s:%d' % (m.rel, node.lineno), 'typed column %s' % typed[0][:30],
+                     'the table is created with the typed column `%s`: the column\'s affinity makes sqlite convert keys (or values) of another type on the way in and '
+                     'in comparisons - an int key and the str of its digits become the same row, so a cached call with one of them is answered with the other\'s '
+                     'result; klepto\'s own columns are typeless for that reason' % typed[0], '%s:%d' % (m.rel, node.lineno))
+    if n < 1:
+        raise AnalysisError('instance count below confirmed minimum: no `create table` statement found in klepto/_archives.py')
+
+
+def rule_A_PUBPARENTS(ctx, repo, cache):
+    """A-PUB (nested entry names): the name of a directory entry is the text of the key, and a key may contain the path separator (path-like arguments
+    under the string keymap): the entry is then a nested directory.  The publishing rename therefore creates the missing parents of its target -
+    os.renames does; os.replace / os.rename do not, fail with FileNotFoundError, and _store swallows OSError: the store is silently dropped."""
+    for lab in ('dir_archive', 'hdfdir_archive[hdf]'):
+        ci = archive_classes(repo, [lab])[0]
+        routine = STORE_ROUTINES.get(lab, '_store')
+        fi, outs, eng = cache.outs(ci, routine)
+        bad = None
+        n = 0
+        for o in outs:
+            evs = o.st.events
+            for i, e in enumerate(evs):
+                if e.kind != 'RENAME' or len(e.args) < 3 or not on_self_store(e.args[1]):
+                    continue
+                n += 1
+                via = e.args[2][1] if is_const(e.args[2]) else ''
+                made = any(x.kind in ('MKDIR', 'MKDIRS') and x.args and contains_term(x.args[0], lambda t: t[0] == 'call' and t[1] == ('lib', 'os.path.dirname'))
+                           for x in evs[:i])
+                if via not in ('os.renames', 'shutil.move') and not made:
+                    bad = (o, e, via)
+        ctx.ob('A-PUB', '%s.%s: the publishing rename creates missing parents (%d rename sites)' % (lab, routine, n), bad is None)
+        if bad is not None:
+            o, e, via = bad
+            ctx.fail('A-PUB', mq(ci, routine), 'published with %s' % via,
+                     '%s.%s moves the staged entry into place with %s, which does not create intermediate directories: for a key whose text contains the path '
+                     'separator (e.g. the string key of a path-like argument) the target\'s parent does not exist, the rename raises FileNotFoundError, and the '
+                     'enclosing `except OSError` swallows it - the entry is silently not stored (and re-evaluated later)' % (lab, routine, via), wh(ci, e.line),
+                     render_path(o))
+
+
+def rule_A_GETKEY(ctx, repo):
+    """A-FNAME (inverse): a directory entry is named PREFIX + name(key); the lister recovers the key from the entry name by taking the prefix off - exactly
+    once and as a string: a slice of len(PREFIX), str.removeprefix, or split(PREFIX, 1)[1].  str.lstrip(PREFIX) strips a *set of characters* (the key
+    'Kelvin' is listed as 'elvin', '_private' as 'private'), split(PREFIX)[-1] cuts at the last occurrence ('TASK_1' -> '1'), replace removes them all."""
+    m = repo.mod('_archives')
+    pre = m.consts.get('PREFIX')
+    plen = len(pre.value) if isinstance(pre, ast.Constant) and isinstance(pre.value, str) else None
+    n = 0
+    for lab in ('dir_archive', 'hdfdir_archive[hdf]'):
+        ci = m.classes.get(lab)
+        if ci is None or '_getkey' not in ci.methods:
+            raise AnalysisError('anchor vanished: %s._getkey' % lab)
+        fn = ci.methods['_getkey'].node
+        n += 1
+        bad = None
+        for x in ast.walk(fn):
+            if isinstance(x, ast.Call) and isinstance(x.func, ast.Attribute):
+                if x.func.attr in ('lstrip', 'strip', 'rstrip') and x.args:
+                    bad = (x, '%s() strips any run of the characters of its argument, not the prefix' % x.func.attr)
+                elif x.func.attr == 'replace' and x.args and isinstance(x.args[0], ast.Name) and x.args[0].id == 'PREFIX':
+                    bad = (x, 'replace() removes every occurrence of the prefix inside the key as well')
+                elif x.func.attr in ('split', 'rsplit') and x.args and isinstance(x.args[0], ast.Name) and x.args[0].id == 'PREFIX' and len(x.args) < 2 and not x.keywords:
+                    bad = (x, 'split(PREFIX) without maxsplit cuts at every occurrence of the prefix inside the key')
+                elif x.func.attr == 'partition' and False:
+                    pass
+            elif isinstance(x, ast.Subscript) and isinstance(x.slice, ast.Slice) and isinstance(x.slice.lower, ast.Constant) and isinstance(x.slice.lower.value, int) \
+                    and plen is not None and x.slice.upper is None and x.slice.lower.value != plen:
+                bad = (x, 'the slice [%d:] does not take off exactly the %d characters of PREFIX' % (x.slice.lower.value, plen))
+        ctx.ob('A-FNAME', '%s._getkey takes the prefix off exactly once' % lab, bad is None)
+        if bad is not None:
+            x, why = bad
+            ctx.fail('A-FNAME', mq(ci, '_getkey'), 'key recovered with %s' % ' '.join(unparse(x).split())[:40],
+                     '%s._getkey recovers the key from the entry name with `%s`: %s - keys(), items(), values(), ==, popitem() and load() report a key that was never '
+                     'stored (or raise KeyError for it) while lookups by key still work' % (lab, ' '.join(unparse(x).split())[:60], why), '%s:%d' % (m.rel, x.lineno))
+    ctx.ob('A-FNAME', '_getkey implementations examined', True, n=n)
+
+
+def rule_A_COPYTREE(ctx, repo):
+    """A-COPY (a copy is a copy): copy(name) of a directory archive creates the target; it does not merge into a directory that is already there.
+    shutil.copytree(..., dirs_exist_ok=True) overlays the source on an existing archive: the entries that archive already had (and stale key files inside
+    entries of the same name) survive, so the copy is not equal to the original."""
+    m = repo.mod('_archives')
+    n = 0
+    for node in ast.walk(m.tree):
+        if isinstance(node, ast.Call) and ((isinstance(node.func, ast.Attribute) and node.func.attr == 'copytree') or (isinstance(node.func, ast.Name) and node.func.id == 'copytree')):
+            n += 1
+            bad = [k for k in node.keywords if k.arg == 'dirs_exist_ok' and not (isinstance(k.value, ast.Constant) and k.value.value is False)]
+            ctx.ob('A-COPY', '%s:%d copytree creates its target' % (m.rel, node.lineno), not bad)
+            if bad:
+                ctx.fail('A-COPY', '%s:%d' % (m.rel, node.lineno), 'copytree merges into an existing directory',
+                         'copy(name) copies the archive directory with dirs_exist_ok=True: when an archive already lives at `name` the two are merged - the copy also '
+                         'holds the other archive\'s entries (and, inside entries of the same name, its stale key files), so it is not equal to the original',
+                         '%s:%d' % (m.rel, node.lineno))
+    ctx.ob('A-COPY', 'copytree calls examined', True, n=max(1, n))
+
+
+def rule_A_NAMEDHANDLE(ctx, repo):
+    """A-PUB (named handles): a file opened for writing and bound to a name stays open until that name dies - the end of the function.  If the function
+    publishes the file by a rename before that, the rename happens while data may still sit in the write buffer: a kill right after it leaves a truncated
+    (for klepto: empty-reading) live object.  `with open(...)`, an explicit close() before the rename, or the anonymous `open(p,'wb').write(x)` (closed when
+    the statement ends) are the accepted forms."""
+    m = repo.mod('_archives')
+    n = 0
+    for ci in archive_classes(repo, PERSISTENT):
+        for name, fi in ci.methods.items():
+            fn = fi.node
+            opens = [x for x in ast.walk(fn) if isinstance(x, ast.Assign) and len(x.targets) == 1 and isinstance(x.targets[0], ast.Name) and isinstance(x.value, ast.Call)
+                     and isinstance(x.value.func, ast.Name) and x.value.func.id == 'open' and len(x.value.args) > 1 and isinstance(x.value.args[1], ast.Constant)
+                     and isinstance(x.value.args[1].value, str) and any(c in x.value.args[1].value for c in 'wax+')]
+            if not opens:
+                continue
+            renames = [x for x in ast.walk(fn) if isinstance(x, ast.Call) and unparse(x.func) in ('os.replace', 'os.rename', 'os.renames', 'shutil.move')]
+            for op in opens:
+                n += 1
+                h = op.targets[0].id
+                closes = [x.lineno for x in ast.walk(fn) if isinstance(x, ast.Call) and isinstance(x.func, ast.Attribute) and x.func.attr == 'close'
+                          and isinstance(x.func.value, ast.Name) and x.func.value.id == h]
+                later = [r for r in renames if r.lineno > op.lineno]
+                bad = [r for r in later if not any(op.lineno < c <= r.lineno for c in closes)]
+                ctx.ob('A-PUB', '%s.%s handle %s closed before the publishing rename' % (ci.label, name, h), not bad)
+                if bad:
+                    ctx.fail('A-PUB', mq(ci, name), 'handle %s still open at the rename' % h,
+                             '%s.%s binds the staging file to the name `%s` (line %d) and renames it into place (line %d) without closing it first: the handle is closed, and '
+                             'its buffer flushed, only when the function returns - a kill just after the rename leaves a truncated live file, which the reader turns into an '
+                             'empty archive' % (ci.label, name, h, op.lineno, bad[0].lineno), wh(ci, bad[0].lineno))
+    ctx.ob('A-PUB', 'named write handles examined', True, n=max(1, n))
+
+
+def rule_A_INITRAISE(ctx, repo):
+    """A-OPEN (an existing store can always be opened): the constructors of the directory and file archives contain no `raise` of their own.  What is
+    found at the location - nothing, entries, the staging directory of a writer that was killed - never makes opening fail: a validation such as "a
+    non-empty directory without entries is not an archive" locks everybody out after a crash during the very first store."""
+    m = repo.mod('_archives')
+    n = 0
+    for lab in ('dir_archive', 'file_archive', 'hdfdir_archive[hdf]', 'hdf_archive[hdf]'):
+        ci = m.classes.get(lab)
+        if ci is None or '__init__' not in ci.methods:
+            continue
+        n += 1
+        fn = ci.methods['__init__'].node
+        raises = [x for x in ast.walk(fn) if isinstance(x, ast.Raise) and x.exc is not None]
+        ctx.ob('A-OPEN', '%s.__init__ raises nothing of its own' % lab, not raises)
+        for x in raises:
+            ctx.fail('A-OPEN', mq(ci, '__init__'), '__init__ raises %s' % unparse(x.exc).split('(')[0],
+                     '%s.__init__ can refuse to open an existing location (`%s`): what a killed or failed writer left there - e.g. only a staging directory, before '
+                     'the first entry was published - then makes the archive unopenable for every later process, although no completed store was lost'
+                     % (lab, ' '.join(unparse(x).split())[:70]), '%s:%d' % (m.rel, x.lineno))
+    if n < 2:
+        raise AnalysisError('instance count below confirmed minimum: %d archive constructors (< 2)' % n)
+
+
+def rule_A_LAZY(ctx, repo):
+    """A-TXN (listings are materialised): the sqlite archive hands out keys / items from a result it has fully fetched (set(), list(), fetchall()).  A
+    generator over a live cursor keeps the SELECT open while the caller iterates: the connection holds its shared lock for as long as a half-consumed
+    walk is alive, and a writer in another process fails with "database is locked" - its completed call returns an error or its store is lost."""
+    m = repo.mod('_archives')
+    ci = m.classes.get('sqltable_archive[!sql]')
+    if ci is None:
+        raise AnalysisError('anchor vanished: the sqlite fallback sqltable_archive')
+    n = 0
+    # private helpers that hand the cursor of the statement they run back to their caller (`def _execute(self, sql, *a): return self._engine.execute(...)`)
+    cursor_helpers = set()
+    def is_exec(c):
+        return isinstance(c, ast.Call) and isinstance(c.func, ast.Attribute) and (c.func.attr == 'execute' or (
+            c.func.attr in cursor_helpers and isinstance(c.func.value, ast.Name) and c.func.value.id == 'self'))
+    for _round in range(3):
+        for name, fi in ci.methods.items():
+            rets = [r for r in ast.walk(fi.node) if isinstance(r, ast.Return) and r.value is not None]
+            if name.startswith('_') and not name.startswith('__') and rets and all(is_exec(r.value) for r in rets):
+                cursor_helpers.add(name)
+    for name, fi in ci.methods.items():
+        for x in ast.walk(fi.node):
+            gens = []
+            if isinstance(x, (ast.GeneratorExp,)):
+                gens = x.generators
+            elif isinstance(x, ast.Return) and is_exec(x.value) and name not in cursor_helpers:
+                n += 1
+                ctx.ob('A-TXN', None, False)
+                ctx.fail('A-TXN', mq(ci, name), 'live cursor returned', '%s.%s returns the live cursor of a SELECT' % (ci.label, name), wh(ci, x.lineno))
+            for g in gens:
+                it = g.iter
+                live = is_exec(it)
+                if live or (isinstance(it, ast.Call) and any(is_exec(y) for y in ast.walk(it))):
+                    n += 1
+                ctx.ob('A-TXN', None, not live) if live or n else None
+                if live:
+                    ctx.fail('A-TXN', mq(ci, name), 'lazy generator over a live SELECT',
+                             '%s.%s yields from `%s` lazily: while a caller holds a half-consumed iterator the statement stays active and the connection keeps '
+                             'its read lock, so a writer in another process gets "database is locked" after the busy timeout and its entry is not stored'
+                             % (ci.label, name, ' '.join(unparse(it).split())[:50]), wh(ci, x.lineno))
+    ctx.ob('A-TXN', 'result sets of the sqlite archive are materialised before they are handed out', True)
 
 
 def rule_A_GLOBROOT(ctx, repo):
@@ -1263,6 +1498,24 @@ def rule_A_VIS_STAGE(ctx, repo, cache, props_note=''):
                      'the staging directory of %s._store is named "%s<random>" and the entry lister globs for "%s": while a store is in progress '
                      '(or after it crashed / failed) the staging directory is listed as a key that was never stored, and reading it raises KeyError' % (lab, pre, pat),
                      wh(ci, e.line), render_path(o))
+        # A-STAGE (fresh name): the staging directory is private to one attempt: its name has a random / per-process / per-time component.  A name derived
+        # from the key alone is shared with an interrupted or failed earlier attempt (and with a concurrent writer of the same key): pox.mkdir refuses the
+        # existing directory, _store swallows that OSError, skips writing and publishes the other attempt's leftover
+        stale = None
+        for o, p_, e_ in sites:
+            # ... drawn from a source that differs between processes forked from one parent: the global `random` functions are re-seeded in a forked child, a
+            # private Random() instance created at import time is duplicated with its state (two workers then draw the same names)
+            fresh = contains_term(p_, lambda t: t[0] == 'call' and t[1][0] == 'lib' and (
+                t[1][1].startswith(('random.', 'uuid.', 'tempfile.', 'secrets.', 'time.')) or t[1][1] in ('os.urandom', 'os.getpid', 'random')))
+            ctx.ob('A-STAGE', None, fresh)
+            if not fresh and stale is None:
+                stale = (o, p_, e_)
+        if stale is not None:
+            o, p_, e_ = stale
+            ctx.fail('A-STAGE', mq(ci, '_store'), 'staging name is not fresh',
+                     'the staging directory of %s._store is named %s, with no random / per-process component: a later store of the same key finds the directory an '
+                     'interrupted or failed attempt left behind, the mkdir fails, the failure is swallowed with the write, and the leftover - an older or incomplete '
+                     'value - is published as the new entry' % (lab, render(basename_term(p_))[:70]), wh(ci, e_.line), render_path(o))
         # A-STAGE: visible staging objects are published or removed on every exit
         leak = None
         for o in outs:
@@ -1659,6 +1912,9 @@ def rule_A_FNAME(ctx, repo, cache, aliasing=False):
                             bad = 'the builtin %s is process dependent: another session would look for the entry under a different name' % nm
                         elif nm not in FNAME_STEPS:
                             bad = 'the step %s() between the key and the entry name is not known to keep distinct keys apart' % nm
+                        elif nm == 'replace' and not (len(t[2]) == 2 and t[2][0] == C('-') and t[2][1] == C('_')):
+                            bad = 'a further substitution (%s) maps more distinct keys to one entry name, and the stored key is never compared on lookup: ' \
+                                  'a lookup of one key is served the entry of another' % ', '.join(render(x)[:20] for x in t[2])
                     elif t[0] == 'sub':
                         bad = 'the name is sliced / truncated (%s): keys that agree on the kept part share one entry' % render(t)[:60]
                     elif t[0] in ('attr', 'tuple', 'kw', 'star', 'phi', 'bin', 'fstr'):
